@@ -17,7 +17,13 @@ from pandas.api.types import is_bool_dtype
 from pandas.errors import IndexingError
 
 from dask_expr._collection import Series, from_legacy_dataframe, new_collection
-from dask_expr._expr import Blockwise, MaybeAlignPartitions, Projection, are_co_aligned
+from dask_expr._expr import (
+    Blockwise,
+    Expr,
+    MaybeAlignPartitions,
+    Projection,
+    are_co_aligned,
+)
 from dask_expr._util import is_scalar
 
 
@@ -147,7 +153,9 @@ class LocIndexer(Indexer):
         return new_collection(LocElement(self.obj, iindexer, cindexer))
 
 
-class LocBase(Blockwise):
+class LocBase(Expr):
+    # Not a Blockwise operation: output partition ``i`` is generally computed
+    # from a different input partition (the leading partitions are dropped)
     _parameters = ["frame", "iindexer", "cindexer"]
     operation = staticmethod(methods.loc)
 
